@@ -118,6 +118,10 @@ package olla
 //@   ensures res != nil && (connErr(res) || circuitOpen(res)) ==> !ghost(w).started
 //@   replay proxy_success_on_error_status@internal/adapter/proxy
 //@   at call RecordSuccess 1 assert resp.StatusCode < 400
+// once the response has started, the attempt fails exactly when the relay failed for a reason other than the client
+// going away (then as ResponseStartedError: not retried), and succeeds otherwise
+//@   at return 4 assert streamErr != nil && !errorsIs(streamErr, context.Canceled) && ghost(w).started
+//@   at return 5 assert (streamErr == nil || errorsIs(streamErr, context.Canceled)) && ghost(w).started
 //@   at call IsOpen 1 assert len(ghost(w).hdr["Content-Type"]) == old(len(ghost(w).hdr["Content-Type"]))
 // C08 (the engine's own breakers): a round trip that succeeded has closed the endpoint's breaker and cleared its
 // failure count by the time the response is started; one that failed has been counted
